@@ -316,7 +316,10 @@ func isTransparentCallee(name string) bool {
 		strings.HasPrefix(name, "github.com/cosmos/cosmos-sdk/types.DecCoin"),
 		strings.HasPrefix(name, "github.com/cosmos/cosmos-sdk/types.Min"),
 		strings.HasPrefix(name, "github.com/cosmos/cosmos-sdk/types.Max"),
-		strings.HasPrefix(name, "math/big."):
+		strings.HasPrefix(name, "math/big."),
+		strings.HasSuffix(name, "types.AccAddressFromBech32"),
+		strings.HasSuffix(name, "types.MustAccAddressFromBech32"),
+		strings.HasSuffix(name, "types.AccAddress.String"):
 		return true
 	}
 	return false
